@@ -566,13 +566,17 @@ def run(ctx):
             py, case = g(ctx, rng, quick); py['kind'] = case[0]; py['case'] = case; pys.append(py)
     impl, logs = run_resilient(ctx, exe, 'impl', [p['case'] for p in pys])
     # a few cases with very short expansions run under AddressSanitizer (the model is total: any report is a disagreement)
-    build_lib(ctx, 'asan')
+    t_asan = time.time()
+    build_lib(ctx, 'asan')          # shared ASan flavour (pre-built by bin/setup.sh; incremental here)
+    ctx.cov['asan_lib_build_s'] = round(time.time() - t_asan, 1)
     exe_asan = build_harness(ctx, 'C18', flavor='asan')
     if exe_asan is None:
         print('ERROR: ASan harness does not build'); sys.exit(3)
     for _ in range(24 if quick else 200):
         py, case = gen_condexp(ctx, rng, quick); py['kind'] = case[0]; py['case'] = case; py['asan'] = True; pys_asan.append(py)
     impl_a, logs_a = run_resilient(ctx, exe_asan, 'asan', [p['case'] for p in pys_asan], env={'ASAN_OPTIONS': 'detect_leaks=0:abort_on_error=0'})
+    ctx.cov['asan_part_s'] = round(time.time() - t_asan, 1)
+    ctx.log('ASan part: %d cases, %.1fs (of which library build %.1fs)' % (len(pys_asan), ctx.cov['asan_part_s'], ctx.cov['asan_lib_build_s']))
     pys = pys + pys_asan; impl = impl + impl_a; logs = logs + logs_a
     found_input = False
     mcases = []; mref = []
